@@ -145,11 +145,11 @@ def redrive(src):
     yield from build_events(src, ns, opt or None)
 
 
-MODELS = {"quick": [("Enumerate", "Enumerate_q.cfg", "frontier enumeration of all NFA(2,{a,b}) for n <= 3, level by level"),
-                    ("Enumerate", "EnumerateCfg_q.cfg", "sentential-form enumeration of all CNF grammars with <= 3 rules, n <= 3"),
+MODELS = {"quick": [("Enumerate", "Enumerate_q.cfg", "frontier enumeration of all NFA(2,{a,b}) for n <= 3, level by level", {"allow_untaken": True}),
+                    ("Enumerate", "EnumerateCfg_q.cfg", "sentential-form enumeration of all CNF grammars with <= 3 rules, n <= 3", {"allow_untaken": True}),
                     ("Simplify", "Simplify_q.cfg", "regexp budget-splitting enumeration (EnumIsDenotation), trees <= 2 operators")],
-          "thorough": [("Enumerate", "Enumerate_t.cfg", "NFA(2,{a,b}), n <= 4"),
-                       ("Enumerate", "EnumerateCfg_t.cfg", "CNF grammars with <= 4 rules, n <= 4"),
+          "thorough": [("Enumerate", "Enumerate_t.cfg", "NFA(2,{a,b}), n <= 4", {"allow_untaken": True}),
+                       ("Enumerate", "EnumerateCfg_t.cfg", "CNF grammars with <= 4 rules, n <= 4", {"allow_untaken": True}),
                        ("Simplify", "Simplify_t.cfg", "trees <= 3 operators, n <= 4")]}
 RULE = ("objects of the six kinds from the universes of C01/C05/C07/C09/C11 (exhaustive small universes strided in "
         "quick, random beyond); per object and bound n in {0,1,2,3}: the kind's enumerator, generate_language and the "
